@@ -132,7 +132,7 @@ fn closure_case(n: usize, stop: Option<usize>, entry: Entry, rep: &mut Report) {
 fn collecting_case(n: usize, kind: usize, entry: Entry, rep: &mut Report) {
     let mark = tracked::mark();
     let (its, ids) = items(n);
-    let tag = format!("n={} collector={} entry={:?}", n, ["Vec", "VecDeque", "CustomExtend", "BTreeSet<u64>"][kind], entry);
+    let tag = format!("n={} collector={} entry={:?}", n, ["Vec", "VecDeque", "CustomExtend", "zero-sized Extend", "BTreeSet<u64>"][kind], entry);
     let feed = |cb: OpaqueCallback<Item>, its: Vec<Item>| -> Option<usize> {
         let mut cb = cb;
         match entry {
@@ -169,6 +169,25 @@ fn collecting_case(n: usize, kind: usize, entry: Entry, rep: &mut Report) {
             let mut v = CustomExtend(vec![], vec![]);
             let r = feed(v.from_extend(), its);
             (v.0.clone(), v.1.iter().map(|t| t.touch()).collect(), r)
+        }
+        3 => {
+            // zero-sized collections: a unit-struct sink that counts, and std's `impl Extend<()> for ()`
+            drop(its);
+            if cfg!(miri) { return; } // Miri rejects the erased reference to a zero-sized payload (DESIGN.md §2); covered natively and under ASan
+            struct ZstSink;
+            static SEEN: std::sync::atomic::AtomicUsize = std::sync::atomic::AtomicUsize::new(0);
+            impl Extend<u64> for ZstSink { fn extend<I: IntoIterator<Item = u64>>(&mut self, it: I) { for _ in it { SEEN.fetch_add(1, std::sync::atomic::Ordering::SeqCst); } } }
+            let before = SEEN.load(std::sync::atomic::Ordering::SeqCst);
+            let mut z = ZstSink;
+            let r = (0..n as u64).feed_into(z.from_extend());
+            let got = SEEN.load(std::sync::atomic::Ordering::SeqCst) - before;
+            let mut unit = ();
+            let r2 = (0..n).map(|_| ()).feed_into(unit.from_extend());
+            if got != n || r != n || r2 != n {
+                rep.violation("C15:collector-content", &format!("{}: zero-sized collection received {} of {} items, counts reported {} and {}", tag, got, n, r, r2), &tag);
+            }
+            rep.add("collector_cases", 1);
+            return;
         }
         _ => {
             // set semantics on plain numbers
@@ -421,7 +440,7 @@ pub fn run(args: &Args, rep: &mut Report) {
             for p in 0..n {
                 closure_case(n, Some(p), e, rep);
             }
-            for kind in 0..4 {
+            for kind in 0..5 {
                 collecting_case(n, kind, e, rep);
             }
         }
